@@ -315,6 +315,10 @@ func (session *BaseInSession) handleRtcpPacket(b []byte, rAddr *net.UDPAddr) err
 		var rrBuf []byte
 		switch sr.SenderSsrc {
 		case session.audioSsrc.Load():
+			if rAddr != nil && session.audioRtcpConn == nil {
+				// 该track没有通过udp方式setup，没有用于回复rr的rtcp连接
+				break
+			}
 			session.mu.Lock()
 			rrBuf = session.audioRrProducer.Produce(sr.GetMiddleNtp())
 			session.mu.Unlock()
@@ -327,6 +331,10 @@ func (session *BaseInSession) handleRtcpPacket(b []byte, rAddr *net.UDPAddr) err
 				session.sessionStat.AddWriteBytes(len(b))
 			}
 		case session.videoSsrc.Load():
+			if rAddr != nil && session.videoRtcpConn == nil {
+				// 该track没有通过udp方式setup，没有用于回复rr的rtcp连接
+				break
+			}
 			session.mu.Lock()
 			rrBuf = session.videoRrProducer.Produce(sr.GetMiddleNtp())
 			session.mu.Unlock()
